@@ -25,15 +25,26 @@ def views_of(sh):
 INIT_SAMPLES = 4      # initial sampling density of both the driven object and the twin (keeps evalpts small)
 
 
+def init_sampling(o):
+    """different sample sizes per direction: derived views that silently assume equal sizes must show"""
+    pd = o.pdimension
+    if pd == 1:
+        o.sample_size = INIT_SAMPLES
+    elif pd == 2:
+        o.sample_size_u, o.sample_size_v = 3, 4
+    else:
+        o.sample_size_u, o.sample_size_v, o.sample_size_w = 2, 3, 2
+
+
 def start(sh0):
     o = build(sh0)
-    o.sample_size = INIT_SAMPLES
+    init_sampling(o)
     return o
 
 
 def twin(defn, hist):
     t = build(defn)
-    t.sample_size = INIT_SAMPLES
+    init_sampling(t)
     for st in hist:
         if st["a"] == "sample_size":
             t.sample_size = st["n"]
